@@ -155,6 +155,13 @@ def apply_contract(ip, con, f, args, kwargs):
     env = {}
     ip.bind_params(node.args, args, kwargs, env, f.__name__)
     if not con.frame_only and not in_domain(ip, con, env):
+        # a function may have several contracts (tagged `qualname#tag`) for different parameter shapes
+        base = con.qualname.split("#")[0]
+        for name, alt in ip.contracts.items():
+            if name != con.qualname and name.split("#")[0] == base and not alt.frame_only and not alt.inline_at_calls \
+                    and not alt.assumed and name != ip.verifying and in_domain(ip, alt, env):
+                ip.contract_calls.add(name)
+                return _apply(ip, alt, env, f, args, kwargs)
         # the call is outside the shapes the contract was proved for (a constant parameter with another value, a receiver of
         # another class): the contract says nothing about it, the body is executed instead
         ip.assumptions_used.add(f"call of {con.qualname} outside its contract's parameter shapes: body inlined")
@@ -239,17 +246,24 @@ def _apply(ip, con, env, f, args, kwargs):
             selfv.attrs[fname] = eval_clause(ip, sh, env, f"{qn}#field[{fname}]")
         else:
             selfv.attrs[fname] = sh.make(ip, f"new_{fname}") if hasattr(sh, "make") else ip.wrap(sh)
+    snapshots = {}
     for m in (con.modifies if modifies_applies(ip, con, node, env) else ()):
         pname = m.split(".", 1)[0]
         obj = env.get(pname)
         if isinstance(obj, SObj) and "." in m:
             attr = m.split(".", 1)[1]
+            if attr in obj.attrs:
+                snapshots[m] = obj.attrs[attr]          # old["param.attr"] in the ensures clause
             if not obj.fresh and (obj.oid, attr) not in ip.modifies_ok and (obj.oid, "*") not in ip.modifies_ok:
                 ip.frame_violation(f"call of {qn} modifies {obj.name}.{attr}")
-            obj.attrs[attr] = Z(V.fresh(f"{pname}.{attr}'"))
+            prev = obj.attrs.get(attr)
+            # the new value keeps the representation kind of the old one (a sequence stays a sequence)
+            obj.attrs[attr] = ZSeq(V.fresh(f"{pname}.{attr}'", V.VS), prev.kind) if isinstance(prev, ZSeq) else (
+                LList(None, V.fresh(f"{pname}.{attr}'", V.VS), fresh=True) if isinstance(prev, LList) else Z(V.fresh(f"{pname}.{attr}'")))
         elif obj is not None and not (_attr_writable(ip, obj, m.split(".", 1)[1]) if "." in m else is_writable(ip, obj)):
             ip.frame_violation(f"call of {qn} modifies its argument `{m}`, which is not fresh in the caller")
     old = {k: v for k, v in env.items()}
+    old.update(snapshots)
     # exceptional outcomes
     if con.raises:
         conds = [(k, clause_bool(ip, c, env, f"{qn}#raises[{k}]") if callable(c) else z3.BoolVal(bool(c))) for k, c in con.raises.items()]
